@@ -18,9 +18,9 @@ PROPS = {
               "validation actually run; distinct = FNV-1a hash of the byte string."),
         phases=[
             P(kind="enum", bin="c01_parse_enum", quick=[], thorough=[], shards_quick=8, shards_thorough=16),
-            P(kind="fuzz", bin="c01_parse", runs_quick=240000, runs_thorough=40000000, workers_quick=8, workers_thorough=16, max_len=4096, rss=6000, timeout=60),
+            P(kind="fuzz", bin="c01_parse", runs_quick=240000, runs_thorough=3840000, workers_quick=8, workers_thorough=16, max_len=4096, rss=6000, timeout=60),
         ],
-        floor_quick=20000, floor_thorough=1000000,
+        floor_quick=20000, floor_thorough=100000,
     ),
     "C02": P(
         title="built messages serialise validly and round-trip",
@@ -32,8 +32,8 @@ PROPS = {
         level_note="Trusts engine/wire.cc as encoder/decoder; generator is sound w.r.t. documented API preconditions (valid UTF-8/paths/names, nesting within limits, mandatory fields set, no reuse of a message after abandon_container).",
         rule=("case = construction program decoded from fuzzer input (constructor, setter sequence, body value trees, per-value append API). Non-trivial = body contains a container, or >=2 top-level values, "
               "or >=3 header fields; distinct = FNV-1a of the marshalled bytes."),
-        phases=[P(kind="fuzz", bin="c02_build", runs_quick=48000, runs_thorough=8000000, workers_quick=8, workers_thorough=16, max_len=4096, rss=6000, timeout=60)],
-        floor_quick=4000, floor_thorough=300000,
+        phases=[P(kind="fuzz", bin="c02_build", runs_quick=48000, runs_thorough=768000, workers_quick=8, workers_thorough=16, max_len=4096, rss=6000, timeout=60)],
+        floor_quick=4000, floor_thorough=20000,
     ),
     "C03": P(
         title="true sender stamped; unique names unique forever",
@@ -45,8 +45,8 @@ PROPS = {
                     "name; frames from the bus carry org.freedesktop.DBus; the monitor's copies are checked by body token; unique names are checked against every name ever issued in the process."),
         level_note="Permissive policy only; the name counter is not driven to wrap-around (hook H4 not built); trusts busmodel.cc/wire.cc. One open known finding (destination-less calls are answered without SENDER).",
         rule=("case = history decoded from fuzzer input. Non-trivial = >=2 registered clients and >=1 delivered message that carried a forged SENDER, unknown field or CONTAINER_INSTANCE; distinct = FNV-1a of the log with unique names renamed."),
-        phases=[P(kind="fuzz", bin="c03_sender", nopool_odd=True, runs_quick=14000, runs_thorough=3000000, workers_quick=12, workers_thorough=16, max_len=1024, rss=4000, timeout=120, detect_leaks=0)],
-        floor_quick=800, floor_thorough=50000,
+        phases=[P(kind="fuzz", bin="c03_sender", nopool_odd=True, runs_quick=14000, runs_thorough=224000, workers_quick=12, workers_thorough=16, max_len=1024, rss=4000, timeout=120, detect_leaks=0)],
+        floor_quick=800, floor_thorough=4000,
     ),
     "C04": P(
         title="name ownership state machine",
@@ -57,8 +57,8 @@ PROPS = {
                     "signals before its reply) and GetNameOwner/NameHasOwner/ListQueuedOwners/ListNames are compared with a model transcribed from the specification. Samples the space of histories."),
         level_note="Trusts engine/busmodel.cc (spec transcription) and wire.cc; the daemon runs in-process under the harness' main-loop pumping (single-threaded, like the real daemon); undefined flag bits carry no verdict.",
         rule=("case = operation history decoded from fuzzer input. Non-trivial = some name had >=2 queue entries during the history; distinct = FNV-1a of the operation log with unique names renamed by first appearance."),
-        phases=[P(kind="fuzz", bin="c04_names", nopool_odd=True, runs_quick=12000, runs_thorough=2000000, workers_quick=12, workers_thorough=16, max_len=512, rss=4000, timeout=120, detect_leaks=0)],
-        floor_quick=600, floor_thorough=50000,
+        phases=[P(kind="fuzz", bin="c04_names", nopool_odd=True, runs_quick=12000, runs_thorough=192000, workers_quick=12, workers_thorough=16, max_len=512, rss=4000, timeout=120, detect_leaks=0)],
+        floor_quick=600, floor_thorough=3000,
     ),
     "C05": P(
         title="unicast: exactly the current owner, once, in order",
@@ -70,8 +70,8 @@ PROPS = {
                     "undeliverable calls must earn exactly one error with their serial; NoReply errors on callee disconnect are modelled; final registry state is checked."),
         level_note="The daemon is single-threaded: 'schedules' = order in which bytes of different clients become readable, explored through batches (<=4 ops, <=24 serialisations). Eavesdroppers' copies of bus-originated unicast frames and of undeliverable messages are [U] (optional). Trusts busmodel.cc, matchmodel.cc, wire.cc.",
         rule=("case = history decoded from fuzzer input. Non-trivial = some batch contained a send and an ownership change or close affecting its destination; distinct = FNV-1a of the log with unique names renamed."),
-        phases=[P(kind="fuzz", bin="c05_unicast", nopool_odd=True, runs_quick=14000, runs_thorough=3000000, workers_quick=12, workers_thorough=16, max_len=1024, rss=4000, timeout=120, detect_leaks=0)],
-        floor_quick=600, floor_thorough=50000,
+        phases=[P(kind="fuzz", bin="c05_unicast", nopool_odd=True, runs_quick=14000, runs_thorough=224000, workers_quick=12, workers_thorough=16, max_len=1024, rss=4000, timeout=120, detect_leaks=0)],
+        floor_quick=600, floor_thorough=3000,
     ),
     "C06": P(
         title="security policy decisions equal the documented rule semantics",
@@ -84,8 +84,8 @@ PROPS = {
                     "receive rules both allow, AccessDenied for a denied method call, no ownership change for a denied RequestName."),
         level_note="A fixed scaffold at the end of the mandatory context keeps the harness' own driver calls and the bus' replies/signals permitted; at_console, SELinux/AppArmor, log= are out of scope; plain send_destination/receive_sender against a queued (non-primary) owner and requested-reply state as seen by eavesdroppers are [U]; fd-count attributes are generated but all probes carry 0 fds (C15 covers fds). Trusts policymodel.cc/busmodel.cc.",
         rule=("case = (policy, cast, probes) decoded from fuzzer input. Non-trivial = some probe for which at least one allow and one deny rule match (last-match-wins is decisive); distinct = FNV-1a of policy text + log with unique names renamed."),
-        phases=[P(kind="fuzz", bin="c06_policy", nopool_odd=True, runs_quick=6000, runs_thorough=1500000, workers_quick=14, workers_thorough=16, max_len=1024, rss=4000, timeout=120, detect_leaks=0)],
-        floor_quick=600, floor_thorough=50000,
+        phases=[P(kind="fuzz", bin="c06_policy", nopool_odd=True, runs_quick=6000, runs_thorough=96000, workers_quick=14, workers_thorough=16, max_len=1024, rss=4000, timeout=120, detect_leaks=0)],
+        floor_quick=600, floor_thorough=3000,
     ),
     "C07": P(
         title="broadcasts reach exactly the matching connections",
@@ -97,8 +97,8 @@ PROPS = {
                     "exact delivery set of every broadcast are compared with the model; the daemon runs under ASan/UBSan."),
         level_note="Trusts engine/matchmodel.cc; UNSPEC rule shapes (whitespace, empty segments, >16 pairs, destination= well-known name, two kinds of match on one argument, RemoveMatch of a rule naming a departed unique name) carry no verdict; unicast copies seen by eavesdrop='true' holders are ignored here (C05/C18).",
         rule=("case = history decoded from fuzzer input. Non-trivial = some broadcast was evaluated against >=2 rules on >=2 connections with >=1 match and >=1 non-match; distinct = FNV-1a of the log with unique names renamed."),
-        phases=[P(kind="fuzz", bin="c07_match", nopool_odd=True, runs_quick=16000, runs_thorough=3000000, workers_quick=12, workers_thorough=16, max_len=1024, rss=4000, timeout=120, detect_leaks=0)],
-        floor_quick=800, floor_thorough=100000,
+        phases=[P(kind="fuzz", bin="c07_match", nopool_odd=True, runs_quick=16000, runs_thorough=256000, workers_quick=12, workers_thorough=16, max_len=1024, rss=4000, timeout=120, detect_leaks=0)],
+        floor_quick=800, floor_thorough=4000,
     ),
     "C08": P(
         title="authenticated only after a valid SASL exchange",
@@ -113,9 +113,9 @@ PROPS = {
                     "and the bus admits the user/anonymous; GetConnectionCredentials reports the socket uid; a binary Hello before BEGIN is never answered."),
         level_note="Trusts the model in targets/c08_auth.cc (transcribed from the specification's authentication state diagrams) and engine/sha1.cc; cookie ageing (stale cookies) relies on the real clock and is not forced; hex case and ERROR texts are [U].",
         rule=("case = (server configuration, script, chunking) decoded from fuzzer input. Non-trivial = the script reaches WaitingForData or an OK (a well-formed AUTH for a permitted mechanism); distinct = FNV-1a of configuration + command-class sequence (phase i) / of the log (phase ii)."),
-        phases=[P(kind="fuzz", bin="c08_auth", runs_quick=300000, runs_thorough=60000000, workers_quick=8, workers_thorough=16, max_len=512, rss=4000, timeout=60),
-                P(kind="fuzz", bin="c08_busauth", nopool_odd=True, runs_quick=4000, runs_thorough=1000000, workers_quick=8, workers_thorough=16, max_len=512, rss=4000, timeout=120, detect_leaks=0)],
-        floor_quick=2000, floor_thorough=200000,
+        phases=[P(kind="fuzz", bin="c08_auth", runs_quick=300000, runs_thorough=4800000, workers_quick=8, workers_thorough=16, max_len=512, rss=4000, timeout=60),
+                P(kind="fuzz", bin="c08_busauth", nopool_odd=True, runs_quick=4000, runs_thorough=64000, workers_quick=8, workers_thorough=16, max_len=512, rss=4000, timeout=120, detect_leaks=0)],
+        floor_quick=2000, floor_thorough=10000,
     ),
     "C09": P(
         title="only the addressee of a pending call can answer it, once",
@@ -127,8 +127,8 @@ PROPS = {
                     "AccessDenied and reaches nobody (a bystander holding type= rules must see nothing); callee disconnect / expiry yield exactly one NoReply per open slot."),
         level_note="Policy is the fixed requested-replies-only configuration (C06 varies policies); time is the harness' virtual clock (hook H1), advanced in steps that never land exactly on the timeout; trusts busmodel.cc.",
         rule=("case = history decoded from fuzzer input. Non-trivial = >=1 illegitimate reply attempt after >=1 legitimate call; distinct = FNV-1a of the log with unique names renamed."),
-        phases=[P(kind="fuzz", bin="c09_replies", nopool_odd=True, runs_quick=14000, runs_thorough=3000000, workers_quick=12, workers_thorough=16, max_len=1024, rss=4000, timeout=120, detect_leaks=0)],
-        floor_quick=600, floor_thorough=50000,
+        phases=[P(kind="fuzz", bin="c09_replies", nopool_odd=True, runs_quick=14000, runs_thorough=224000, workers_quick=12, workers_thorough=16, max_len=1024, rss=4000, timeout=120, detect_leaks=0)],
+        floor_quick=600, floor_thorough=3000,
     ),
     "C18": P(
         title="a monitor sees everything that matches and can affect nothing",
@@ -141,8 +141,8 @@ PROPS = {
                     "queries must not mention monitors; a monitor that sends is disconnected without effect on others; an invalid BecomeMonitor changes nothing."),
         level_note="Single operations only (no batches); filters use type/interface/member keys only (sender=/destination= in monitor filters are [U] with respect to ownership timing); the unprivileged-uid refusal of BecomeMonitor is exercised in C06's multi-user setup, not here; trusts busmodel.cc.",
         rule=("case = history decoded from fuzzer input. Non-trivial = a monitor is present and afterwards a refused/undeliverable message, an ownership change or a misbehaving monitor occurs; distinct = FNV-1a of the log with unique names renamed."),
-        phases=[P(kind="fuzz", bin="c18_monitor", nopool_odd=True, runs_quick=12000, runs_thorough=3000000, workers_quick=12, workers_thorough=16, max_len=1024, rss=4000, timeout=120, detect_leaks=0)],
-        floor_quick=300, floor_thorough=20000,
+        phases=[P(kind="fuzz", bin="c18_monitor", nopool_odd=True, runs_quick=12000, runs_thorough=192000, workers_quick=12, workers_thorough=16, max_len=1024, rss=4000, timeout=120, detect_leaks=0)],
+        floor_quick=300, floor_thorough=1500,
     ),
     "C10": P(
         title="one misbehaving client cannot crash, corrupt or stall the bus",
@@ -156,8 +156,8 @@ PROPS = {
                     "every frame the pair, the watcher and the monitor receive is valid and is from the bus, the pair, or the stamped copy of a valid hostile frame in order; unauthenticated connections are gone after the timeouts and a newcomer is then served; no block or descriptor is leaked at shutdown."),
         level_note="'Bounded time' is measured in main-loop iterations of the in-process bus under a virtual clock, not wall-clock latency of a separate daemon process; the bus and all clients share one thread, so kernel-level scheduling effects are not explored. Flood sizes stay below the outgoing-queue limits.",
         rule=("case = history decoded from fuzzer input. Non-trivial = an authenticated hostile wrote a stream the validator rejects and >=1 round trip ran afterwards; distinct = FNV-1a of the log with unique names renamed."),
-        phases=[P(kind="fuzz", bin="c10_hostile", nopool_odd=True, runs_quick=9000, runs_thorough=2000000, workers_quick=12, workers_thorough=16, max_len=2048, rss=4000, timeout=120, detect_leaks=0)],
-        floor_quick=400, floor_thorough=30000,
+        phases=[P(kind="fuzz", bin="c10_hostile", nopool_odd=True, runs_quick=9000, runs_thorough=144000, workers_quick=12, workers_thorough=16, max_len=2048, rss=4000, timeout=120, detect_leaks=0)],
+        floor_quick=400, floor_thorough=2000,
     ),
     "C11": P(
         title="framing independent of chunking",
@@ -168,8 +168,8 @@ PROPS = {
                     "their bytes and the corruption flag must be identical and equal the independent decoding. Samples the space of (stream, partition) pairs."),
         level_note="Loader level only in this check (DBusMessageLoader via libdbus-internal); the handshake-to-message boundary of the socket transport is exercised by the in-process bus targets. Trusts engine/wire.cc.",
         rule=("case = (stream, ordered cut points) decoded from fuzzer input. Non-trivial = >=2 messages and >=1 cut strictly inside a message; distinct = FNV-1a of stream bytes + cut list."),
-        phases=[P(kind="fuzz", bin="c11_chunk", runs_quick=40000, runs_thorough=6000000, workers_quick=8, workers_thorough=16, max_len=4096, rss=6000, timeout=60)],
-        floor_quick=3000, floor_thorough=100000,
+        phases=[P(kind="fuzz", bin="c11_chunk", runs_quick=40000, runs_thorough=640000, workers_quick=8, workers_thorough=16, max_len=4096, rss=6000, timeout=60)],
+        floor_quick=3000, floor_thorough=15000,
     ),
     "C12": P(
         title="header edits keep a message valid",
@@ -182,8 +182,8 @@ PROPS = {
         level_note="Trusts engine/wire.cc; the model demands only what the property states (edited field reads back as set, other fields keep value and relative order).",
         rule=("case = initial message + edit sequence decoded from fuzzer input. Non-trivial = >=2 edits of which one changes the length of, or deletes, a field that is not last (or strips >=1 unknown field); "
               "distinct = FNV-1a of initial message description + edit list."),
-        phases=[P(kind="fuzz", bin="c12_hdredit", runs_quick=80000, runs_thorough=10000000, workers_quick=8, workers_thorough=16, max_len=4096, rss=6000, timeout=60)],
-        floor_quick=5000, floor_thorough=200000,
+        phases=[P(kind="fuzz", bin="c12_hdredit", runs_quick=80000, runs_thorough=1280000, workers_quick=8, workers_thorough=16, max_len=4096, rss=6000, timeout=60)],
+        floor_quick=5000, floor_thorough=25000,
     ),
     "C13": P(
         title="configured resource limits are never exceeded",
@@ -196,8 +196,8 @@ PROPS = {
                     "usable again, and an oversize message disconnects only its sender."),
         level_note="Single operations (no batches); auth_timeout is not exercised here (C10); the second uid is obtained with a short-lived setresuid child (root in the sandbox); re-requesting an already held name exactly at the name limit is [U] and not generated. The unique name counts as a name [D test/dbus-daemon.c].",
         rule=("case = (configuration, history) decoded from fuzzer input. Non-trivial = the history hits a limit, frees capacity and uses it again; distinct = FNV-1a of the log (which includes the limit values) with unique names renamed."),
-        phases=[P(kind="fuzz", bin="c13_limits", nopool_odd=True, runs_quick=14000, runs_thorough=3000000, workers_quick=12, workers_thorough=16, max_len=1024, rss=4000, timeout=120, detect_leaks=0)],
-        floor_quick=200, floor_thorough=30000,
+        phases=[P(kind="fuzz", bin="c13_limits", nopool_odd=True, runs_quick=14000, runs_thorough=224000, workers_quick=12, workers_thorough=16, max_len=1024, rss=4000, timeout=120, detect_leaks=0)],
+        floor_quick=200, floor_thorough=1000,
     ),
     "C14": P(
         title="out-of-memory at any point leaves state unchanged and leaks nothing",
@@ -212,11 +212,11 @@ PROPS = {
                     "a reported failure must leave the message marshalling to the bytes it had before and the repeated operation must succeed, a reported success must equal the reference, demarshal/parse must say NoMemory or the reference verdict, and the block count must return to its level."),
         level_note="Failures are injected into dbus_malloc/realloc and the memory pools (what libdbus' own countdown covers), not into the kernel or libc (socket buffers, getpwuid); pairs of failures are explored for a generated gap per case, not for all pairs.",
         rule=("case = (history, request) decoded from fuzzer input, enumerated over every failing allocation index. Non-trivial = >=2 prior operations, the countdown fired in >=1 run and >=1 run ended in NoMemory; distinct = FNV-1a of the normalised history and request."),
-        phases=[P(kind="enum", bin="c14_busoom_enum", nopool_odd=True, quick=["420", "96"], thorough=["40000", "96"], shards_quick=14, shards_thorough=16),
+        phases=[P(kind="enum", bin="c14_busoom_enum", nopool_odd=True, quick=["420", "96"], thorough=["6000", "96"], shards_quick=14, shards_thorough=16),
                 # pairs of failures: the second one a generated gap (0-11 allocations) after the first (hook H3)
-                P(kind="enum", bin="c14_liboom_enum", quick=["2800", "128"], thorough=["400000", "128"], shards_quick=14, shards_thorough=16),
-                P(kind="enum", bin="c14_busoom_enum", nopool_odd=True, quick=["100210", "96", "100000"], thorough=["120000", "96", "100000"], shards_quick=14, shards_thorough=16, env={"VP_PAIRS": "1"})],
-        floor_quick=100, floor_thorough=5000,
+                P(kind="enum", bin="c14_liboom_enum", quick=["2800", "128"], thorough=["45000", "128"], shards_quick=14, shards_thorough=16),
+                P(kind="enum", bin="c14_busoom_enum", nopool_odd=True, quick=["100210", "96", "100000"], thorough=["103000", "96", "100000"], shards_quick=14, shards_thorough=16, env={"VP_PAIRS": "1"})],
+        floor_quick=100, floor_thorough=500,
     ),
     "C15": P(
         title="passed file descriptors arrive intact and are never leaked",
@@ -230,8 +230,8 @@ PROPS = {
                     "the number of open descriptors in the process equals baseline + 2 per live client + the model's surplus, returning to the baseline after all clients closed."),
         level_note="The bus runs in-process, so 'the bus' descriptor table' is /proc/self/fd minus what the harness owns (it closes every received descriptor at once); max_incoming_unix_fds flow control and queue-full paths are not driven; descriptors attached to a later byte of a message are not generated ([U]: the kernel may discard them).",
         rule=("case = history decoded from fuzzer input. Non-trivial = >=1 fd-carrying message that ended on a failure path (sender disconnected, denied, incapable recipient, undeliverable, pending too long, closed with surplus); distinct = FNV-1a of the log with unique names renamed."),
-        phases=[P(kind="fuzz", bin="c15_fds", nopool_odd=True, runs_quick=12000, runs_thorough=2500000, workers_quick=12, workers_thorough=16, max_len=1024, rss=4000, timeout=120, detect_leaks=0)],
-        floor_quick=400, floor_thorough=30000,
+        phases=[P(kind="fuzz", bin="c15_fds", nopool_odd=True, runs_quick=12000, runs_thorough=192000, workers_quick=12, workers_thorough=16, max_len=1024, rss=4000, timeout=120, detect_leaks=0)],
+        floor_quick=400, floor_thorough=2000,
     ),
     "C16": P(
         title="grammar predicates",
@@ -248,9 +248,9 @@ PROPS = {
               "A case = (predicate, string); non-trivial = string length >= 2 (both oracles must look past the first character); distinct = hash of (predicate, bytes)."),
         phases=[
             P(kind="enum", bin="c16_grammar_enum", quick=["5", "4", "4", "3", "3"], thorough=["7", "5", "6", "4", "4"], shards_quick=8, shards_thorough=16, exhaustive=True),
-            P(kind="fuzz", bin="c16_grammar", runs_quick=60000, runs_thorough=6000000, workers_quick=4, workers_thorough=16, max_len=512),
+            P(kind="fuzz", bin="c16_grammar", runs_quick=60000, runs_thorough=960000, workers_quick=4, workers_thorough=16, max_len=512),
         ],
-        floor_quick=5000, floor_thorough=200000,
+        floor_quick=5000, floor_thorough=25000,
     ),
     "C17": P(
         title="every call awaiting a reply completes exactly once",
@@ -263,10 +263,10 @@ PROPS = {
                     "replies must carry the call's serial and come from the peer or be a local NoReply/Disconnected/Timeout error, serials are non-zero and distinct."),
         level_note="c17_pending is single-threaded under the virtual clock (hooks H1/H2; dbus_pending_call_block is only invoked when it can terminate). The clause 'from several threads' is only sampled: c17_threads shares one connection between 2-4 threads in real time (calls completed by blocking, by notify + dispatch loop, by send_with_reply_and_block, or cancelled; the peer thread answers now / out of order / twice / with an error / never) and checks exactly-once completion with the right token, distinct non-zero serials, no notification of cancelled calls, a 20 s hang watchdog and sanitizer silence; it does not control the interleaving, so schedule-specific defects can escape.",
         rule=("case = schedule decoded from fuzzer input. Non-trivial = >=2 outstanding calls and (out-of-order or duplicate replies, or time passing / cancel while replies are written but unread, or peer close with calls outstanding); distinct = FNV-1a of the log."),
-        phases=[P(kind="fuzz", bin="c17_pending", runs_quick=100000, runs_thorough=20000000, workers_quick=8, workers_thorough=16, max_len=512, rss=4000, timeout=60),
+        phases=[P(kind="fuzz", bin="c17_pending", runs_quick=100000, runs_thorough=1600000, workers_quick=8, workers_thorough=16, max_len=512, rss=4000, timeout=60),
                 # threads clause: sampling stress of one connection shared by 2-4 threads (real time; see level_note)
-                P(kind="fuzz", bin="c17_threads", race=True, runs_quick=4200, runs_thorough=400000, workers_quick=14, workers_thorough=16, max_len=256, rss=4000, timeout=60, detect_leaks=0)],
-        floor_quick=800, floor_thorough=50000,
+                P(kind="fuzz", bin="c17_threads", race=True, runs_quick=4200, runs_thorough=67200, workers_quick=14, workers_thorough=16, max_len=256, rss=4000, timeout=60, detect_leaks=0)],
+        floor_quick=800, floor_thorough=4000,
     ),
     "C19": P(
         title="auto-started services get held messages once, in order, or callers get errors",
@@ -281,9 +281,9 @@ PROPS = {
                     "Oracle: independent reading of the generated files (first loadable file in configured order decides) gives EXEC / NO-EXEC; an executed program's argv (logged by the stub) must equal /bin/sh's splitting of the Exec line."),
         level_note="The service is a real child process, so each case costs ~0.2 s and waits use bounded real time (10 s) besides the virtual clock; exit status 0 without taking the name is modelled as 'pending until the timeout' as bus/activation.c documents. Policy-denied held messages, systemd activation and <servicehelper> (setuid helper launched by the bus) are not driven.",
         rule=("case = history decoded from generated bytes. Non-trivial = >=2 requests were waiting on one activation when it succeeded or failed; distinct = FNV-1a of the normalised log."),
-        phases=[P(kind="enum", bin="c19_helper_enum", quick=["6000", "96"], thorough=["600000", "96"], shards_quick=12, shards_thorough=16, env={"ASAN_OPTIONS": "abort_on_error=0:detect_leaks=0:symbolize=1:allocator_may_return_null=1:detect_odr_violation=0:handle_abort=1"}),
-                P(kind="enum", bin="c19_activation_enum", nopool_odd=True, quick=["1400", "96"], thorough=["200000", "96"], shards_quick=14, shards_thorough=16, env={"ASAN_OPTIONS": "abort_on_error=0:detect_leaks=0:symbolize=1:allocator_may_return_null=1:detect_odr_violation=0:handle_abort=1"})],
-        floor_quick=150, floor_thorough=10000,
+        phases=[P(kind="enum", bin="c19_helper_enum", quick=["6000", "96"], thorough=["100000", "96"], shards_quick=12, shards_thorough=16, env={"ASAN_OPTIONS": "abort_on_error=0:detect_leaks=0:symbolize=1:allocator_may_return_null=1:detect_odr_violation=0:handle_abort=1"}),
+                P(kind="enum", bin="c19_activation_enum", nopool_odd=True, quick=["1400", "96"], thorough=["20000", "96"], shards_quick=14, shards_thorough=16, env={"ASAN_OPTIONS": "abort_on_error=0:detect_leaks=0:symbolize=1:allocator_may_return_null=1:detect_odr_violation=0:handle_abort=1"})],
+        floor_quick=150, floor_thorough=750,
     ),
     "C20": P(
         title="object-path handlers: exact path, then nearest fallback",
@@ -296,7 +296,7 @@ PROPS = {
                     "an occupied path must fail with ObjectPathInUse and change nothing; dbus_connection_list_registered must list exactly the model's immediate children."),
         level_note="One connection, one thread; built-in Introspect/Peer replies are not generated; unregistering an unregistered path is a documented caller error and not generated. Trusts the 30-line model in targets/c20_objpath.cc.",
         rule=("case = history decoded from fuzzer input. Non-trivial = >=3 registrations sharing a prefix and a call with >=2 candidate handlers; distinct = FNV-1a of the log."),
-        phases=[P(kind="fuzz", bin="c20_objpath", runs_quick=160000, runs_thorough=30000000, workers_quick=8, workers_thorough=16, max_len=512, rss=4000, timeout=60)],
-        floor_quick=2000, floor_thorough=200000,
+        phases=[P(kind="fuzz", bin="c20_objpath", runs_quick=160000, runs_thorough=2560000, workers_quick=8, workers_thorough=16, max_len=512, rss=4000, timeout=60)],
+        floor_quick=2000, floor_thorough=10000,
     ),
 }
